@@ -118,45 +118,73 @@ class _inshim(object):
 # --------------------------------------------------------------------------- #
 
 class _WProxy(object):
-    """Unbuffered binary writer: each write is split into <= 3 chunks, event before each."""
+    """Binary writer with the REAL buffering semantics of open(..., "wb"): data written by the
+    program sits in a user-space buffer (lost by a kill, invisible to other processes) until the
+    buffer overflows, flush() or close(); the transfer to the file then happens in up to three
+    chunks (1 byte, half, rest) with an event before each - the partial-write prefixes that a
+    crash or a concurrent reader can observe."""
+    BUFSIZE = 8192
 
     def __init__(self, raw, path):
         self._raw = raw
         self._path = path
         self._closed = False
         self._off = 0
+        self._buf = bytearray()
 
     def write(self, b):
         mv = memoryview(b).cast("B") if not isinstance(b, (bytes, bytearray)) else memoryview(b)
         n = len(mv)
         if n == 0:
             return 0
-        cuts = sorted({1, n // 2, n} - {0}) if n > 2 else [n] if n == 1 else [1, n]
-        cuts = [c for c in cuts if c <= n]
+        self._buf += mv
+        if len(self._buf) > self.BUFSIZE:
+            self._drain()
+        return n
+
+    def _drain(self):
+        data = bytes(self._buf)
+        del self._buf[:]
+        n = len(data)
+        if n == 0:
+            return
+        cuts = [n] if n == 1 else ([1, n] if n == 2 else sorted({1, n // 2, n}))
         start = 0
         for c in cuts:
             if c <= start:
                 continue
             emit("write", self._path, (self._off, c - start))
             with _inshim():
-                self._raw.write(mv[start:c])
+                self._raw.write(data[start:c])
             self._off += c - start
             start = c
-        return n
 
     def writelines(self, lines):
         for l in lines:
             self.write(l)
 
     def flush(self):
-        return None
+        self._drain()
 
     def close(self):
         if not self._closed:
             self._closed = True
+            self._drain()
             emit("close-w", self._path)
             with _inshim():
                 self._raw.close()
+
+    def __del__(self):
+        # like a real buffered file that is garbage collected while open: flushed and closed
+        # (no events: finalisers are not scheduling points; a kill never gets here)
+        try:
+            if not self._closed:
+                self._closed = True
+                if self._buf:
+                    self._raw.write(bytes(self._buf))
+                self._raw.close()
+        except Exception:
+            pass
 
     @property
     def closed(self):
